@@ -330,7 +330,11 @@ theorem pushDefaultK_refines : ∀ (b : B) (k : Nat) (b' : B), WFH b → NoDictK
     simp only [pushDefaultK, ctx_ok] at h
     split at h
     · simp [fail] at h
+    split at h
+    · simp [fail] at h
     · obtain ⟨fs', h1, h2⟩ := (bind_ok _ _ _).1 h
+      split at h2
+      · simp [fail] at h2
       cases h2
       obtain ⟨cj, mj, hg⟩ := firstReal_get c m rest
       rw [pushDefaultKAt_eq _ _ k cj mj hg] at h1
